@@ -49,20 +49,6 @@ def CopyOk (s : State) (sb sk db dk : Bytes) : Prop :=
             (alLookup (db, dk) s.infos).getD {} = (alLookup (sb, sk) s.infos).getD {}
     | _, _ => True)
 
-theorem alInsert_same {α β : Type} [DecidableEq α] {k : α} {v : β} {l : List (α × β)} (h : alLookup k l = some v) :
-    alInsert k v l = l := by
-  induction l with
-  | nil => simp at h
-  | cons e t ih =>
-    obtain ⟨a, b⟩ := e
-    by_cases h' : a = k
-    · subst h'
-      simp only [alLookup_cons, if_true, Option.some.injEq] at h
-      subst h
-      simp [alInsert]
-    · simp only [alLookup_cons, h', if_false] at h
-      simp only [alInsert, h', if_false, ih h]
-
 /-- `create_dir_all` below an existing bucket, when no prefix is a file: directories are appended -/
 theorem mkdirAll_ok (s : State) (b : Bytes) (q : Path) (t : Tree) (ht : s.tree b = some t) (hnd : keysNodup t)
     (hq : ∀ x ∈ prefixes q, isFile (t.node x) = false) :
